@@ -614,6 +614,21 @@ class Interp:
         return None
 
     def s_Try(self, s, st):
+        frame = self.frames[-1]
+        nret0 = len(frame.returns)
+        out = self._try_inner(s, st)
+        if s.finalbody:
+            # `return` inside try/except runs the finally block before the function returns
+            fixed = []
+            for (v, rst, node) in frame.returns[nret0:]:
+                env_keep = rst.env
+                fst = self.exec_block(s.finalbody, rst)
+                if fst is not None:
+                    fixed.append((v, fst, node))
+            frame.returns[nret0:] = fixed
+        return out
+
+    def _try_inner(self, s, st):
         pre = self.copy_state(st)
         sink = []
         self.raise_sinks.append(sink)
